@@ -496,8 +496,163 @@ func secondLife() {
 	fx.Settle()
 	vrt.Observe("first=%d second=%d hooks=%d", first, second, impl.Terminated)
 }
+// twoSubscriptions: one connection follows two signals and the property of an
+// object; when the object is removed every one of its channels is closed;
+// also with far more unread events than a subscription queue holds.
+func twoSubscriptions() {
+	x := start()
+	x.add()
+	if len(x.objs) != 1 {
+		return
+	}
+	a := x.objs[0]
+	c := x.w.MustConnect()
+	p := c.Probe(a.id)
+	flood := []int{0, 30, 130}[vrt.ChooseFree(3, "unread events pending at removal: 0 / 30 / 130")]
+	how := vrt.ChooseFree(2, "Remove / remote terminate")
+	closed := make([]bool, 3)
+	got := make([]int, 3)
+	start := make([]func(), 3)
+	names := []string{"tick", "other", "level"}
+	_, ch0, e0 := p.SubscribeTick()
+	_, ch1, e1 := p.SubscribeOther()
+	_, ch2, e2 := p.SubscribeLevel()
+	if e0 != nil || e1 != nil || e2 != nil {
+		vrt.Failf("live-object-refuses", "subscribing to three actions of a live object failed: %v %v %v", e0, e1, e2)
+		return
+	}
+	start[0] = func() {
+		vrt.GoNamed("drain-tick", func() {
+			for range ch0 {
+				got[0]++
+			}
+			closed[0] = true
+		})
+	}
+	start[1] = func() {
+		vrt.GoNamed("drain-other", func() {
+			for range ch1 {
+				got[1]++
+			}
+			closed[1] = true
+		})
+	}
+	start[2] = func() {
+		vrt.GoNamed("drain-level", func() {
+			for range ch2 {
+				got[2]++
+			}
+			closed[2] = true
+		})
+	}
+	vrt.Quiesce()
+	vrt.Explore()
+	// nobody reads while the events arrive
+	for k := 0; k < flood; k++ {
+		a.impl.Helper.SignalTick(int32(k))
+		if k == 5 {
+			// the client's forwarding goroutine picks the first event up and
+			// waits for a reader: the queue behind it can then fill completely
+			vrt.Quiesce()
+		}
+	}
+	vrt.Quiesce()
+	var err error
+	if how == 0 {
+		err = x.w.Service.Remove(a.id)
+	} else {
+		err = x.c.Probe(a.id).Terminate(a.id)
+	}
+	vrt.Quiesce()
+	if err != nil {
+		vrt.Failf("remove-failed", "ending the object failed: %v", err)
+	}
+	for i := range start {
+		start[i]()
+	}
+	vrt.Quiesce()
+	for i, name := range names {
+		if !closed[i] {
+			vrt.Failf("subscriber-not-told/"+name, "the object was removed (variant %d, %d unread tick events pending) but the channel of the connection's %s subscription is still open (it delivered %d events)", how, flood, name, got[i])
+		}
+	}
+	if flood > 0 && flood <= 100 && got[0] != flood {
+		vrt.Failf("events-before-removal-lost", "%d tick events were emitted before the removal (within the queue capacity), %d were delivered", flood, got[0])
+	}
+	if a.impl.Terminated != 1 {
+		vrt.Failf(fmt.Sprintf("terminate-hook-count/%d", a.impl.Terminated), "termination hook ran %d times", a.impl.Terminated)
+	}
+	fx.Settle()
+	wire := 0
+	for _, f := range c.In.Frames {
+		if f.Hdr.Type == 5 && f.Hdr.Action == 105 {
+			wire++
+		}
+	}
+	vrt.Observe("flood=%d how=%d got=%v wire=%d", flood, how, got, wire)
+}
+
+// firstObject: the object a service was created with (id 1) is terminated by
+// a remote client like any other object: its hook runs once, its subscriber
+// is told, and the other objects of the service keep answering.
+func firstObject() {
+	x := start()
+	x.add()
+	if len(x.objs) != 1 {
+		return
+	}
+	b := x.objs[0]
+	c2 := x.w.MustConnect()
+	_, ch, err := c2.Probe(1).SubscribeTick()
+	if err != nil {
+		vrt.Failf("live-object-refuses", "%v", err)
+		return
+	}
+	told := false
+	vrt.GoNamed("drain-root", func() {
+		for range ch {
+		}
+		told = true
+	})
+	vrt.Quiesce()
+	how := vrt.ChooseFree(2, "remote terminate / Service.Remove")
+	vrt.Explore()
+	if how == 0 {
+		err = x.root.Terminate(1)
+	} else {
+		err = x.w.Service.Remove(1)
+	}
+	vrt.Quiesce()
+	if err != nil {
+		vrt.Failf("terminate-failed", "terminating the first object of the service failed: %v", err)
+	}
+	if x.w.Root.Terminated != 1 {
+		vrt.Failf(fmt.Sprintf("terminate-hook-count/first-object/%d", x.w.Root.Terminated), "the first object of the service was terminated (variant %d): its hook ran %d times", how, x.w.Root.Terminated)
+	}
+	if !told {
+		vrt.Failf("subscriber-not-told/first-object", "the first object was terminated but its subscriber's channel is still open")
+	}
+	before := x.w.Root.Total()
+	if _, err := c2.Probe(b.id).Echo(5); err != nil {
+		vrt.Failf("other-object-affected/first-object", "after the first object of the service was terminated, another object of the service fails: %v", err)
+	}
+	if v, err := x.root.Echo(6); err == nil {
+		vrt.Failf("removed-object-answers/first-object", "echo on the terminated first object succeeded (%d)", v)
+	} else if x.w.Root.Total() != before {
+		vrt.Failf("removed-object-invoked/first-object", "a call to the terminated first object ran the method")
+	}
+	if b.impl.Terminated != 0 {
+		vrt.Failf("other-object-terminated", "another object was terminated along with the first one")
+	}
+	fx.Settle()
+	vrt.Observe("how=%d", how)
+}
 
 func init() {
+	reg.Register(&reg.Scenario{Property: "C16", Name: "three-subscriptions-one-connection", Body: twoSubscriptions, Quick: 0, Thorough: 1,
+		Doc: "one connection follows two signals and the property of an object, with 0 / 30 / 130 unread events pending; the object is removed or terminated: every channel of the connection is closed"})
+	reg.Register(&reg.Scenario{Property: "C16", Name: "first-object-terminated", Body: firstObject, Quick: 0, Thorough: 1,
+		Doc: "the object a service was created with (id 1) is terminated remotely or removed: hook once, subscriber told, unreachable, the other objects keep answering"})
 	reg.Register(&reg.Scenario{Property: "C16", Name: "actor-second-life", Body: secondLife, Quick: 1, Thorough: 2,
 		Doc: "the same Actor is added again after its first life ended (Remove / remote terminate) or after a failed activation; each life: callable, a subscriber, ended by Remove or remote terminate; hook once per life, subscriber told, unreachable afterwards"})
 	reg.Register(&reg.Scenario{Property: "C16", Name: "client-objects-histories-6", Body: clientHistories(6), Quick: 0, Thorough: 0,
